@@ -25,3 +25,35 @@ contract("C01.check_count_tag_group_parentheses",
              "C01.parens.at_most_one": "len(result) <= 1",
          },
          bounded={"hed_string": "str:a():7:10", "adapter": "rt.adapters.issues_as_objects"})
+
+from pyvc.contract import class_model
+class_model("StringValidator", {})
+SU = "hed/validator/util/string_util.py"
+contract("C01.character_is_delimiter", file=SU, func="StringValidator._character_is_delimiter", inline=True, trusted=True, prop="C01")
+contract("C01.comma_is_missing_after_closing_parentheses", file=SU,
+         func="StringValidator._comma_is_missing_after_closing_parentheses", inline=True, trusted=True, prop="C01")
+
+DELIMS_MONO = {"name": "delims_ok_mono", "vars": {"s": "Str", "m": "Int", "n": "Int"}, "induct": "n",
+               "stmt": "implies(0 <= m and m <= n and delims_ok_before(s, n), delims_ok_before(s, m))"}
+
+# C01 "empty delimiters / missing comma are reported", C04 "blanks around commas and parentheses do not matter":
+# the scan reports something iff the text is not delimiter-well-formed, where well-formedness is defined on the non-blank characters only
+contract("C01.check_delimiter_issues_in_hed_string", file=SU, func="StringValidator.check_delimiter_issues_in_hed_string",
+         params={"self": "StringValidator", "hed_string": "Str"}, returns="List[Issue]", enc="array", prop="C01",
+         lemmas=[DELIMS_MONO],
+         locals={"issues": "List[Issue]", "current_tag": "Str", "last_non_empty_valid_character": "Str"},
+         ensures={
+             "C01.delims.reported_iff_malformed": "(len(result) == 0) == delims_wellformed(hed_string)",
+             "C01.delims.codes": "all_in(result, lambda x: (x.code == 'TAG_EMPTY' or x.code == 'COMMA_MISSING') and x.severity == 1)",
+         },
+         bounded={"hed_string": "str:a ,():6:8", "adapter": "rt.adapters.string_validator_method"},
+         loops={0: {"invariant": [
+             "(len(issues) == 0) == delims_ok_before(hed_string, _n)",
+             "len(last_non_empty_valid_character) <= 1",
+             "implies(len(issues) == 0, (len(last_non_empty_valid_character) == 0 and last_nb(hed_string, _n) == -1)"
+             " or (len(last_non_empty_valid_character) == 1 and ord(last_non_empty_valid_character[0]) == last_nb(hed_string, _n)"
+             "     and last_nb(hed_string, _n) != -1))",
+             "implies(len(issues) == 0, all(current_tag[k].isspace() for k in range(len(current_tag)))"
+             " == (last_nb(hed_string, _n) == -1 or last_nb(hed_string, _n) == 44 or last_nb(hed_string, _n) == 40))",
+             "all_in(issues, lambda x: (x.code == 'TAG_EMPTY' or x.code == 'COMMA_MISSING') and x.severity == 1)",
+         ]}})
